@@ -400,6 +400,22 @@ fn hll_item(r: &mut FastRng, rep: &mut Report) {
             };
             let base = r.next();
             let overlap = r.chance(0.5);
+            if bh.mode == HMode::Identity && r.chance(0.5) {
+                // boundary hashes: registers at and next to the maximal rank (upper part all zero /
+                // only its lowest bit set), shared between the operands in different combinations
+                let regs = 1 + r.below(8);
+                return (0..n.min(64))
+                    .map(|_| {
+                        let j = r.below(regs);
+                        match r.below(4) {
+                            0 => j,
+                            1 => (1u64 << b) | j,
+                            2 => (1u64 << (b + 1)) | j,
+                            _ => r.next(),
+                        }
+                    })
+                    .collect();
+            }
             (0..n).map(|j| if overlap { base.wrapping_add(r.below(n as u64 + 1)) } else if bh.mode == HMode::Identity { r.next() } else { base.wrapping_add(j as u64) }).collect()
         };
         let (sa, sb, sc) = (mk(r), mk(r), mk(r));
